@@ -681,7 +681,7 @@ macro_rules! algorithm {
                 // Have a non-digit character that follows.
                 Some(None) => $invalid_digit!(<T>::ZERO, iter.cursor() + 1, iter.current_count()),
                 // No digits following, has to be ok
-                None => $into_ok!(<T>::ZERO, index, iter.current_count()),
+                None => $into_ok!(<T>::ZERO, iter.cursor(), iter.current_count()),
             };
         }
     }
